@@ -120,6 +120,8 @@ def show_cmds(cmds):
 
 # ---- `d` as a command list ------------------------------------------------------------------
 class PathData(Ext):
+    stands_for_str = True
+
     def __init__(self, cmds=()):
         self.cmds: List[Cmd] = list(cmds)
 
@@ -154,6 +156,16 @@ class PathData(Ext):
 
     def sym_hashkey(self):
         return ("path-data", repr(self.cmds))
+
+    def sym_join(self, sep, items):
+        """' '.join(subpath data...) is path data again."""
+        out = []
+        for x in items:
+            if isinstance(x, PathData):
+                out.extend(x.cmds)
+            elif x != "":
+                raise Undecided("joining path data with raw text")
+        return PathData(out)
 
     def __repr__(self):
         return f"d<{show_cmds(self.cmds)}>"
